@@ -233,6 +233,9 @@ def setup():
 
 
 # ---------------------------------------------------------------- cases
+# Composites attached by point matching (firstPt/secondPt): scale_upem raises AttributeError on them
+# (pending finding C17-N8, notes/pending_findings.md).  Switch on once the finding is fixed or registered.
+ANCHORED_COMPOSITES = False
 PERMS = ["random", "reverse-tail", "transpose", "rotate"]
 MODES = ["bin-default", "bin-lazy", "bin-eager", "ttx"]
 TARGETS = ["half", "double", "1000<->2048", "plus1", "16384", "ratio"]
@@ -253,7 +256,7 @@ def cases(tier, seed):
     aots = [r for r in recs if "/aots/" in r["path"]]
     rest = [r for r in recs if "/aots/" not in r["path"]]
     if not T:
-        aots = sorted(rnd.sample(aots, min(len(aots), 60)), key=lambda r: r["path"])
+        aots = sorted(rnd.sample(aots, min(len(aots), 48)), key=lambda r: r["path"])
     out = []
     for i, r in enumerate(rest + aots):
         fid = "%s%s" % (r["path"], "#%d" % r["member"] if r.get("member") is not None else "")
@@ -278,7 +281,7 @@ def cases(tier, seed):
         # recalcBBoxes=False: the stored (scaled) boxes and derived header fields are what gets written
         if T:
             combos_s += [(t, "bin-keepbbox") for t in (TARGETS if not (big or "/aots/" in r["path"]) else TARGETS[i % 6:i % 6 + 1])]
-        elif r.get("outlines") == "glyf" or i % 5 == 0:
+        elif r.get("outlines") == "glyf":
             combos_s.append((TARGETS[(i + seed + 1) % 6], "bin-keepbbox"))
         if not T and r["numGlyphs"] > 1000:
             combos_s = []      # scale_upem itself needs ~15 s on such a font (visitor over every charstring token)
@@ -301,6 +304,8 @@ def cases(tier, seed):
         gens.append({"kind": "layout", "i": gi, "params": {"ext": gi % 4 != 3}})
     for gi in range(6 if T else 2):
         gens.append({"kind": "ttcomp", "i": gi, "params": {"anchors": False}})
+        if ANCHORED_COMPOSITES and gi < 2:
+            gens.append({"kind": "ttcomp", "i": 100 + gi, "params": {"anchors": True}})
         gens.append({"kind": "ttvar", "i": gi, "params": {"hvar": ["none", "map", "direct"][gi % 3]}})
     bmodes = ["bin-default", "bin-lazy", "bin-eager"]
     for n, g in enumerate(gens):
@@ -541,10 +546,10 @@ def _texts(rnd, involved, order, thorough):
         texts += [(a, b) for a in inv for b in inv]
     else:
         texts += [(a,) for a in rnd.sample(inv, 40)]
-        for _ in range(500):
+        for _ in range(500 if thorough else 300):
             texts.append((rnd.choice(inv), rnd.choice(inv)))
     pool = inv or order[1:] or order
-    n_long = 500 if thorough else 250
+    n_long = 500 if thorough else 150
     for _ in range(n_long):
         L = rnd.choice([3, 3, 4, 5, 6])
         t = tuple(rnd.choice(pool) if (rnd.random() < 0.85 or not others) else rnd.choice(others) for _i in range(L))
@@ -809,7 +814,7 @@ def _compare_reordered(ctx, case, rnd, R0, B1, order0, new, tech, tabs, mode):
     # ---- shaping -------------------------------------------------------------
     insp = _load_inspect(ctx, case, R0)
     involved, feats, scripts, nl = _involved(insp, order0)
-    targeted = _targeted_pairs(insp, order0, rnd)
+    targeted = _targeted_pairs(insp, order0, rnd, 700 if case.get("thorough") else 400)
     texts = targeted + _texts(rnd, involved, order0, case.get("thorough"))
     ctx.note("reorder:targeted-gpos-record-texts", len(targeted))
     n_active = 0
@@ -954,8 +959,9 @@ def _scalar(region, loc):
 class _Budget:
     """Rounding budgets of the original font (input inspection)."""
 
-    def __init__(self, insp, order):
+    def __init__(self, insp, order, factor=1.0):
         self.font = insp
+        self.factor = factor
         self.order = order
         self.tech = _tech(insp)
         self.axes = [a.axisTag for a in insp["fvar"].axes] if "fvar" in insp else []
@@ -1100,8 +1106,9 @@ class _Budget:
         if depth == 0 and g.numberOfContours != 0 and hasattr(g, "xMin"):
             if g.isComposite():
                 # the engine shifts by lsb' - xMin': lsb' is rounded once, xMin' is recomputed from
-                # the rounded components
-                lsb_extra = budget + 0.5 * (1 + S)
+                # the rounded components; with 2.14 transforms the original header xMin is itself a
+                # rounded value whose rounding error is multiplied by the factor
+                lsb_extra = budget + 0.5 * (1 + S) + (0.5 * self.factor if self.has_transform(name) else 0.0)
             elif self.hmtx[name][1] != g.xMin or loc:
                 # shift = lsb' - xMin' with both rounded (under variation: left phantom point and bounds)
                 lsb_extra = 1.0 * (1 + S)
@@ -1304,7 +1311,7 @@ def _compare_scaled(ctx, case, rnd, R0, B1, order, tech, tabs, mode, U, U1, T0):
         viol("glyph-count", "glyph count %d -> %d" % (H0.glyph_count, H1.glyph_count))
         return
     insp = _load_inspect(ctx, case, R0)
-    B = _Budget(insp, order)
+    B = _Budget(insp, order, s)
     T1 = ST.sfnt_tables(B1)
 
     # ---- outlines and advances, default and variation locations ---------------
@@ -1442,11 +1449,14 @@ def _compare_scaled(ctx, case, rnd, R0, B1, order, tech, tabs, mode, U, U1, T0):
         viol("layout-tags", "script / language / feature tags of GSUB/GPOS changed")
     # ---- fixed-layout metric tables (struct readers) ----------------------------
     comp_budget = 0.5
+    any_transform = False
     if tech == "glyf":
         try:
             comp_budget = max([B.glyf_budget(n, None)[0] for n in order] + [0.5])
+            any_transform = any(B.has_transform(n) for n in order)
         except Exception:
             comp_budget = 4.0
+            any_transform = True
     for tag, rd in ST.READERS.items():
         if (tag in T0) != (tag in T1):
             viol("table-presence", "table %s %s" % (tag, "dropped" if tag in T0 else "added"), table=tag)
@@ -1478,7 +1488,8 @@ def _compare_scaled(ctx, case, rnd, R0, B1, order, tech, tabs, mode, U, U1, T0):
                 elif tech != "glyf":
                     continue      # recomputed from charstring bounds: relative operands accumulate
                 else:
-                    tol_m = 0.0 if (int_factor and exact_font) else 2 * comp_budget + 1.5
+                    # (boxes of transformed composites are rounded in the original too: 0.5 x factor)
+                    tol_m = 0.0 if (int_factor and exact_font) else 2 * comp_budget + 1.5 + (0.5 * s if any_transform else 0.0)
                 if abs(v1 - sF * v0) > tol_m:
                     viol("metric", "%s.%s %r -> %r, expected about %s" % (tag, k, v0, v1, float(sF * v0)), field="%s.%s" % (tag, k), how="derived")
             elif tag == "head" and k == "flags" and (v0 & ~0x2) == (v1 & ~0x2):
@@ -1581,8 +1592,8 @@ def _compare_scaled(ctx, case, rnd, R0, B1, order, tech, tabs, mode, U, U1, T0):
                     viol("glyph-bbox", "glyf header of %d %s glyphs not scaled; e.g. %r %r -> %r (budget %.2f)" % (n, kind, name, a, b, tol_b),
                          where="saved", glyph=kind, how="unscaled" if a[1:] == b[1:] else "wrong", keepbbox=mode == "bin-keepbbox",
                          witness={"glyph": name})
-            if mode == "bin-keepbbox" and not any(t in tabs for t in ("COLR", "sbix", "CBDT", "SVG ", "EBDT")):
-                # (colour glyphs get their extents from clip boxes / layers / bitmaps, not from glyf)
+            if mode == "bin-keepbbox" and not any(t in tabs for t in ("COLR", "sbix", "CBDT", "SVG ", "EBDT", "VARC")):
+                # (colour and VARC glyphs get their extents from clip boxes / layers / bitmaps / assembled components, not from the glyf header)
                 nb, ex = 0, None
                 for gid in range(H0.glyph_count):
                     e0, e1 = H0.font.get_glyph_extents(gid), H1.font.get_glyph_extents(gid)
@@ -1655,7 +1666,7 @@ def _compare_scaled(ctx, case, rnd, R0, B1, order, tech, tabs, mode, U, U1, T0):
     texts = _texts(rnd, involved, order, case.get("thorough"))
     if len(texts) > 1200:
         texts = texts[:len(involved)] + rnd.sample(texts[len(involved):], 1200 - len(involved)) if len(involved) < 1200 else texts[:1200]
-    targeted = _targeted_pairs(insp, order, rnd)
+    targeted = _targeted_pairs(insp, order, rnd, 700 if case.get("thorough") else 400)
     texts = targeted + texts
     ctx.note("scale:targeted-gpos-record-texts", len(targeted))
     idx = {g: i for i, g in enumerate(order)}
